@@ -2,15 +2,30 @@ package main
 
 // svg.* records: C15 (topology/svgicon.go GenerateCompositeSVGdoc / GenerateCompositeSVG).
 //
-//   svg.gen showLabels showHWCID showType showDisplaySize base:hex baseOk:01 MASK ROT T  |  OUT
+//   svg.gen showLabels showHWCID showType showDisplaySize base:hex kinds:hex endOk:01 MASK ROT T  |  OUT
+//   kinds := one letter per token encoding/xml's Decoder.Token delivers for the base: S start element, E end element,
+//            C / W character data (non-blank / blank), M comment, P processing instruction, D directive;
+//            endOk = the stream ended with io.EOF.  The harness's own judgement, made with encoding/xml only.
 //   MASK := ~ | + n (id value)^n
 //   ROT  := n (token fmt fmt90 zero90:01)^n     fmt.Sprintf("%03f") of every rotation token of T, and of value+90
-//   OUT  := nil strEmpty:01 | doc strEmpty:01 kept:01 wellformed:01 n NODE^n
-//   NODE := name:hex nA (key:hex value:hex)^nA text:hex
-// baseOk is the harness's own judgement (encoding/xml reads the base to EOF and sees an element); kept = the base's
-// root attributes and own children are unchanged in the result; wellformed = the printed document re-parses.
+//   OUT  := PR nil strEmpty:01 | PR doc strEmpty:01 kept:01 kept2:01 wellformed:01 tail:01 n NODE^n
+//   PR   := err | noroot | root                 what the real xmldom.ParseXML(base) returned
+//   NODE := name:hex nA (key:hex value:hex)^nA text:hex printed:hex            printed = node.XML()
+//
+//   svg.esc s:hex | printed:hex      (&xmldom.Node{Name:"text", Attributes:{style: s}, Text: s}).XML(): the printer on any bytes
+//
+// kept  = the base's root attributes and own children are unchanged in the result tree (xmldom tree against xmldom tree).
+// kept2 = independent of xmldom: the encoding/xml RawToken stream of the base (start elements with prefix:name and all
+//         attributes in order, end elements, non-blank character data (trimmed; CDATA sections arrive as character data),
+//         comments, processing instructions, directives) is, in order, a subsequence of the token stream of doc.XML()
+//         and of doc.XMLPretty().
+// wellformed = both printed documents tokenize to EOF with matching tags (Decoder.Token), have exactly one root element,
+//         no character data outside it and no start element with the same attribute name twice.
+// tail  = doc.XML() / doc.XMLPretty() end with the node.XML() texts of the appended elements (indented, one per line,
+//         in the pretty form), then the root's text (no '<') and the root's end tag.
 
 import (
+	"bytes"
 	"encoding/xml"
 	"fmt"
 	"io"
@@ -22,21 +37,161 @@ import (
 	xmldom "github.com/subchen/go-xmldom"
 )
 
-func xmlOK(s string) bool {
+// tokenKinds: the independent judgement on a base document (same decoder settings as xmldom.Parse: xml.NewDecoder + Token)
+func tokenKinds(s string) (string, bool) {
 	d := xml.NewDecoder(strings.NewReader(s))
-	seen := false
+	var sb strings.Builder
 	for {
 		t, err := d.Token()
 		if err == io.EOF {
-			return seen
+			return sb.String(), true
+		}
+		if err != nil {
+			return sb.String(), false
+		}
+		switch x := t.(type) {
+		case xml.StartElement:
+			sb.WriteByte('S')
+		case xml.EndElement:
+			sb.WriteByte('E')
+		case xml.CharData:
+			if len(bytes.TrimSpace(x)) == 0 {
+				sb.WriteByte('W')
+			} else {
+				sb.WriteByte('C')
+			}
+		case xml.Comment:
+			sb.WriteByte('M')
+		case xml.ProcInst:
+			sb.WriteByte('P')
+		case xml.Directive:
+			sb.WriteByte('D')
+		}
+	}
+}
+
+// rawTokens: the content of a document as encoding/xml sees it, names with their prefixes, blank text dropped
+func rawTokens(s string) ([]string, bool) {
+	d := xml.NewDecoder(strings.NewReader(s))
+	var out []string
+	for {
+		t, err := d.RawToken()
+		if err == io.EOF {
+			return out, true
+		}
+		if err != nil {
+			return out, false
+		}
+		switch x := t.(type) {
+		case xml.StartElement:
+			var sb strings.Builder
+			sb.WriteString("S " + x.Name.Space + ":" + x.Name.Local)
+			for _, a := range x.Attr {
+				sb.WriteString(" " + a.Name.Space + ":" + a.Name.Local + "=" + strconv.Quote(a.Value))
+			}
+			out = append(out, sb.String())
+		case xml.EndElement:
+			out = append(out, "E "+x.Name.Space+":"+x.Name.Local)
+		case xml.CharData:
+			if tr := bytes.TrimSpace(x); len(tr) > 0 {
+				out = append(out, "C "+strconv.Quote(string(tr)))
+			}
+		case xml.Comment:
+			out = append(out, "M "+strconv.Quote(string(x)))
+		case xml.ProcInst:
+			out = append(out, "P "+x.Target+" "+strconv.Quote(string(bytes.TrimSpace(x.Inst))))
+		case xml.Directive:
+			out = append(out, "D "+strconv.Quote(string(x)))
+		}
+	}
+}
+
+func isSubsequence(a, b []string) bool {
+	i := 0
+	for _, x := range b {
+		if i < len(a) && a[i] == x {
+			i++
+		}
+	}
+	return i == len(a)
+}
+
+// keptTokens: the base's token stream is contained, in order, in the printed document's
+func keptTokens(base, printed string) bool {
+	bt, ok1 := rawTokens(base)
+	pt, ok2 := rawTokens(printed)
+	return ok1 && ok2 && isSubsequence(bt, pt)
+}
+
+// wellFormedDoc: tokenizes with matching tags, one root, nothing but blanks / comments / PIs / directives outside it,
+// no attribute name twice in a start tag
+func wellFormedDoc(s string) bool {
+	d := xml.NewDecoder(strings.NewReader(s))
+	depth, roots := 0, 0
+	for {
+		t, err := d.Token()
+		if err == io.EOF {
+			break
 		}
 		if err != nil {
 			return false
 		}
-		if _, ok := t.(xml.StartElement); ok {
-			seen = true
+		switch x := t.(type) {
+		case xml.StartElement:
+			if depth == 0 {
+				roots++
+			}
+			depth++
+		case xml.EndElement:
+			depth--
+		case xml.CharData:
+			if depth == 0 && len(bytes.TrimSpace(x)) > 0 {
+				return false
+			}
 		}
 	}
+	if roots != 1 || depth != 0 {
+		return false
+	}
+	r := xml.NewDecoder(strings.NewReader(s))
+	for {
+		t, err := r.RawToken()
+		if err != nil {
+			return err == io.EOF
+		}
+		if x, ok := t.(xml.StartElement); ok {
+			seen := map[string]bool{}
+			for _, a := range x.Attr {
+				k := a.Name.Space + ":" + a.Name.Local
+				if seen[k] {
+					return false
+				}
+				seen[k] = true
+			}
+		}
+	}
+}
+
+// printedTail: `printed` = … + appended + root-text + "</root>" (+ "\n" in the pretty form), where root-text is what the
+// printer wrote for the root's own text: it contains no '<', '>' or line break (all escaped)
+func printedTail(printed, rootName, appended string, pretty bool) bool {
+	if appended == "" {
+		return true
+	}
+	end := "</" + rootName + ">"
+	cut := byte('>')
+	if pretty {
+		end += "\n"
+		cut = '\n'
+	}
+	if !strings.HasSuffix(printed, end) {
+		return false
+	}
+	s := strings.TrimSuffix(printed, end)
+	if k := strings.LastIndexByte(s, cut); k >= 0 {
+		s = s[:k+1] // drop the root's text
+	}
+	return strings.HasSuffix(s, appended)
 }
 
 func dumpNode(sb *strings.Builder, n *xmldom.Node) {
@@ -71,7 +226,7 @@ func encXMLNode(n *xmldom.Node) []string {
 	for _, a := range n.Attributes {
 		o = append(o, hx([]byte(a.Name)), hx([]byte(a.Value)))
 	}
-	return append(o, hx([]byte(n.Text)))
+	return append(o, hx([]byte(n.Text)), hx([]byte(n.XML())))
 }
 
 type svgExec struct{}
@@ -80,13 +235,25 @@ func (e *svgExec) Exec(cmd string, a []string) string {
 	a = stripTags(a)
 	var res []string
 	p := guarded(func() {
+		if cmd == "svg.esc" {
+			r := &tokReader{t: a}
+			s := r.str()
+			n := &xmldom.Node{Name: "text", Text: s}
+			n.SetAttributeValue("style", s)
+			res = []string{hx([]byte(n.XML()))}
+			return
+		}
 		if cmd != "svg.gen" {
 			panic("unknown record " + cmd)
 		}
 		r := &tokReader{t: a}
 		o1, o2, o3, o4 := r.next() == "1", r.next() == "1", r.next() == "1", r.next() == "1"
 		base := r.str()
-		r.next() // baseOk: input for the model only
+		// the token summary is input for model and Spec; it must be the one encoding/xml gives for this base
+		kinds, endOk := r.str(), r.next() == "1"
+		if k, e := tokenKinds(base); k != kinds || e != endOk {
+			panic("bad record: token summary does not belong to the base document")
+		}
 		var theMap map[uint32]uint32
 		switch r.next() {
 		case "~":
@@ -115,18 +282,38 @@ func (e *svgExec) Exec(cmd string, a []string) string {
 			doc = topology.GenerateCompositeSVGdoc(topoJSON, base, theMap, o1, o2, o3, o4)
 			str = topology.GenerateCompositeSVG(topoJSON, base, theMap)
 		})
+		// the outcome of the real parser on the base
+		pr := "err"
+		var before *xmldom.Document
+		quietly(func() {
+			if d, err := xmldom.ParseXML(base); err == nil {
+				before = d
+				pr = "noroot"
+				if d.Root != nil {
+					pr = "root"
+				}
+			}
+		})
 		if doc == nil {
-			res = []string{"nil", b01(str == "")}
+			res = []string{pr, "nil", b01(str == "")}
 			return
 		}
 		nBase := 0
 		kept := false
-		if before, err := xmldom.ParseXML(base); err == nil && before.Root != nil {
+		if before != nil && before.Root != nil {
 			nBase = len(before.Root.Children)
 			kept = dumpBasePart(before.Root, nBase) == dumpBasePart(doc.Root, nBase) && len(doc.Root.Children) >= nBase
 		}
-		wf := xmlOK(doc.XMLPretty()) && xmlOK(doc.XML())
-		res = []string{"doc", b01(str == ""), b01(kept), b01(wf), itoa(len(doc.Root.Children) - nBase)}
+		compact, pretty := doc.XML(), doc.XMLPretty()
+		kept2 := keptTokens(base, compact) && keptTokens(base, pretty)
+		wf := wellFormedDoc(compact) && wellFormedDoc(pretty)
+		var ac, ap strings.Builder
+		for _, c := range doc.Root.Children[nBase:] {
+			ac.WriteString(c.XML())
+			ap.WriteString("  " + c.XML() + "\n")
+		}
+		tail := printedTail(compact, doc.Root.Name, ac.String(), false) && printedTail(pretty, doc.Root.Name, ap.String(), true)
+		res = []string{pr, "doc", b01(str == ""), b01(kept), b01(kept2), b01(wf), b01(tail), itoa(len(doc.Root.Children) - nBase)}
 		for _, c := range doc.Root.Children[nBase:] {
 			res = append(res, encXMLNode(c)...)
 		}
@@ -137,13 +324,22 @@ func (e *svgExec) Exec(cmd string, a []string) string {
 	return strings.Join(res, " ")
 }
 
+// base documents of the generator.  On every VALID one (the first validBases entries) the unchanged library keeps the
+// whole content (kept2).  Valid documents on which it does NOT (findings, see lossyBases) are deliberately not here.
 var baseSVGs = []string{
 	`<svg></svg>`,
 	`<svg xmlns="http://www.w3.org/2000/svg" viewBox="0 0 3000 2000" width="100%"></svg>`,
 	`<?xml version="1.0" encoding="UTF-8"?>` + "\n" + `<svg viewBox="0 0 10 10"><g id="a"><rect x="1" y="2" width="3" height="4"/><g><circle r="1"/></g></g><text x="5">Hi &amp; &lt;there&gt;</text></svg>`,
 	"<svg\n   viewBox=\"0 0 1200\n 800\"\n   style=\"fill:none;\n stroke:#000\"\n>\n  <path\n     d=\"M 0 0\n L 10 10\"\n     id=\"p1\" />\n</svg>\n",
-	`<!-- panel --><svg><!-- inner --><rect id="HWc1" x="0" y="0"/></svg>`,
+	`<svg><rect id="HWc1" x="0" y="0"/></svg>`,
 	`<svg><defs><style>.a{fill:red}</style></defs><rect class="a"/></svg>`,
+	// CDATA (arrives as character data), character references, quotes and control characters in attribute values,
+	// DOCTYPE with an internal subset, attribute order, text directly in the root, standalone declaration, self-closing root
+	`<svg><style><![CDATA[ a > b { fill: red } ]]></style><text>&#169; &#x3c;&quot;&apos;</text></svg>`,
+	`<!DOCTYPE svg PUBLIC "-//W3C//DTD SVG 1.1//EN" "http://www.w3.org/Graphics/SVG/1.1/DTD/svg11.dtd">` + "\n" + `<svg b="1" a='x"y' c="t&#9;u&#10;v"><g><g></g></g></svg>`,
+	`<?xml version="1.0" encoding="utf-8" standalone="no"?><!DOCTYPE svg [<!ENTITY e "v">]><svg>root text</svg>`,
+	`<svg/>`,
+	// ---- invalid (index validBases and up) ----
 	``,
 	`   `,
 	`<svg>`,
@@ -153,6 +349,36 @@ var baseSVGs = []string{
 	`<!-- only a comment -->`,
 	`<svg attr=unquoted></svg>`,
 	`<svg></svg><extra`,
+	// no start element at all: xmldom.ParseXML returns err == nil and Root == nil
+	`<?xml version="1.0"?>`,
+	`<?xml version="1.0"?>` + "\n",
+	"\n",
+	`<!-- c -->`,
+	`<!-- a --><!-- b -->`,
+	`<?xml version="1.0"?><!-- c -->`,
+	`<!DOCTYPE svg>`,
+	// tokenizes to a start element and then fails
+	`<svg><text>&nbsp;</text></svg>`,
+	`<?xml version="1.1"?><svg/>`,
+}
+
+const validBases = 10
+
+// Valid base documents on which the UNCHANGED library loses or reorders base content (kept2 = 0) or prints a document
+// that is not well-formed.  Findings, reported; NOT used by the generator (`harness c15 -tier findings` prints them).
+var lossyBases = []string{
+	`<svg><!-- c --></svg>`,                              // comment inside the root dropped
+	`<!-- c --><svg/>`,                                   // comment before the root dropped
+	`<svg/><!-- c -->`,                                   // comment after the root dropped
+	`<svg><text>a<tspan>b</tspan>c</text></svg>`,         // mixed content: "a" lost
+	`<svg><text>a<tspan>b</tspan></text></svg>`,          // mixed content: "a" moved behind the child
+	`<svg>t<rect/></svg>`,                                // root text moved behind the children
+	`<svg xmlns:xlink="http://www.w3.org/1999/xlink"><use xlink:href="#a"/></svg>`, // prefixes stripped: xlink="…", href="#a"
+	`<svg><image href="a.png" xlink:href="a.png"/></svg>`, // prefixes stripped: attribute href twice, not well-formed
+	`<svg><text xml:space="preserve"> a </text></svg>`,   // xml:space -> space, blanks trimmed
+	`<s:svg xmlns:s="http://www.w3.org/2000/svg"><s:rect/></s:svg>`, // element prefixes stripped
+	`<svg><?foo bar?></svg>`,                             // PI moved in front of the root
+	`<?xml version="1.0"?><?xml-stylesheet href="s.css"?><svg/>`, // only the last PI is kept: XML declaration lost
 }
 
 func rotTable(t *topology.Topology) []string {
@@ -202,6 +428,24 @@ func genC15(r *Rng, sessions int, tier string) {
 				t.HWc[k].Txt = g.text(3) + "|" + g.text(3) + "|" + g.text(3)
 			}
 		}
+		// styles of sub elements and display type texts with characters the printer must escape or replace
+		tks := []uint32{}
+		for k := range t.TypeIndex {
+			tks = append(tks, k)
+		}
+		sort.Slice(tks, func(i, j int) bool { return tks[i] < tks[j] }) // (map order must not reach the Rng)
+		for _, k := range tks {
+			sub := t.TypeIndex[k].Sub
+			for si := range sub {
+				if r.Chance(25) {
+					sub[si].Style = svgText(r, 8, false)
+				}
+			}
+		}
+		// the printer alone, on arbitrary bytes (invalid UTF-8, control bytes, non-characters, everything escaped)
+		if r.Chance(30) {
+			emitS("svg.esc", []string{hx([]byte(svgText(r, 10, true)))})
+		}
 		nvariants := 2
 		for v := 0; v < nvariants; v++ {
 			o := []bool{true, true, false, false}
@@ -209,12 +453,15 @@ func genC15(r *Rng, sessions int, tier string) {
 				o = []bool{r.Bool(), r.Bool(), r.Bool(), r.Bool()}
 			}
 			var base string
-			if r.Chance(75) {
-				base = baseSVGs[r.Intn(6)]
+			if tier == "findings" {
+				base = lossyBases[r.Intn(len(lossyBases))]
+			} else if r.Chance(70) {
+				base = baseSVGs[r.Intn(validBases)]
 			} else {
 				base = baseSVGs[r.Intn(len(baseSVGs))]
 			}
-			args := []string{b01(o[0]), b01(o[1]), b01(o[2]), b01(o[3]), hx([]byte(base)), b01(xmlOK(base))}
+			kinds, endOk := tokenKinds(base)
+			args := []string{b01(o[0]), b01(o[1]), b01(o[2]), b01(o[3]), hx([]byte(base)), hx([]byte(kinds)), b01(endOk)}
 			// availability map: nil, empty, all available, all masked, random subset (values 0 / non-zero), foreign ids
 			switch r.Intn(6) {
 			case 0, 1:
@@ -254,6 +501,35 @@ func genC15(r *Rng, sessions int, tier string) {
 			emitS("svg.gen", args)
 		}
 	}
+}
+
+// svgText: text for the printer: ASCII incl. everything escaped, control bytes, valid multi-byte runes incl. the
+// boundaries of the XML character range, and (for svg.esc only reachable undamaged) invalid UTF-8
+func svgText(r *Rng, max int, invalid bool) string {
+	n := r.Intn(max + 1)
+	var sb strings.Builder
+	for i := 0; i < n; i++ {
+		switch r.Intn(8) {
+		case 0:
+			sb.WriteByte(byte(r.Pick('"', '\'', '&', '<', '>', '\t', '\n', '\r', ']', ';', '#')))
+		case 1:
+			sb.WriteByte(byte(r.Pick(0, 1, 8, 11, 12, 14, 31, 127)))
+		case 2:
+			sb.WriteString(string(rune(r.Pick(0x80, 0xe6, 0x7ff, 0x800, 0xd7ff, 0xe000, 0xfffd, 0xfffe, 0xffff, 0x10000, 0x1f600, 0x10ffff))))
+		case 3:
+			if !invalid { // (strings of the topology pass through JSON, which replaces invalid UTF-8)
+				sb.WriteByte(byte(r.Range(32, 126)))
+				continue
+			}
+			// invalid: stray continuation, overlong, surrogate, truncated, > U+10FFFF, 0xFE/0xFF
+			bad := []string{"\x80", "\xbf", "\xc0\xaf", "\xc1\xbf", "\xe0\x80\xaf", "\xe0\x9f\xbf", "\xed\xa0\x80", "\xed\xbf\xbf", "\xc3", "\xe2\x82",
+				"\xf0\x9f\x98", "\xf0\x8f\xbf\xbf", "\xf4\x90\x80\x80", "\xf5\x80\x80\x80", "\xfe", "\xff", "\xef\xbf", "\xe2\x28\xa1"}
+			sb.WriteString(bad[r.Intn(len(bad))])
+		default:
+			sb.WriteByte(byte(r.Range(32, 126)))
+		}
+	}
+	return sb.String()
 }
 
 func init() {
